@@ -1,13 +1,16 @@
 //! roocverif — generates cases, runs the real rooc code on them and writes, per case, the request for
 //! the Lean model, the implementation's canonical answer and the exact-oracle request.
 mod case;
+mod child;
 mod corpus_models;
 mod explore;
 mod gen_model;
 mod gen_exp;
+mod gen_lp;
 mod props;
 mod rng;
 mod sx;
+mod syntax;
 mod text;
 
 use std::io::Write;
@@ -18,6 +21,10 @@ fn arg(args: &[String], name: &str) -> Option<String> {
 
 fn main() {
     let args: Vec<String> = std::env::args().collect();
+    if args.len() >= 2 && args[1] == "solve-worker" {
+        child::worker_main();
+        return;
+    }
     if args.len() >= 3 && args[1] == "explore" {
         explore::explore(&std::fs::read_to_string(&args[2]).expect("read"));
         return;
